@@ -568,7 +568,7 @@ func chainList(tier string, seed int64) []chainCfg {
 	scheds := [][4]int{{1, 2, 3, 4}, {0, 0, 0, 0}, {0, 0, 1, 2}, {0, 1, 1, 3}, {1, 1, 2, 3}, {2, 4, 6, 8}, {0, 0, 0, 1}, {0, 1, -1, -1},
 		{-1, -1, -1, -1}, {0, 0, 0, 3}, {1, 1, 1, 1}, {0, 2, 3, 3}}
 	rng := rand.New(rand.NewSource(seed))
-	for i := 0; i < 44; i++ {
+	for i := 0; i < 130; i++ {
 		p := presets[i%len(presets)]
 		s := scheds[(i/2+rng.Intn(3))%len(scheds)]
 		ep := 12
